@@ -520,7 +520,10 @@ def f1_effects(ctx):
     if not bad:
         ctx.holds('C11.F1', fi, 'all %d write/delete/in-place effect sites of Merger.merge (model load of the output included) are under the output directory '
                   '(%d call sites interpreted)' % (len(sites), f.calls_seen), 'merge')
-    ctx.check(len(sites) >= 8, 'C11.F1', fi, 'merge', 'the effect analysis sees the writes of the merge (%d sites)' % len(sites), 'effect analysis lost the writes of merge')
+    if len(sites) >= 8:
+        ctx.holds('C11.F1', fi, 'the effect analysis sees the writes of the merge (%d sites)' % len(sites), 'merge')
+    else:
+        ctx.undecided('C11.F1', fi, 'the effect analysis sees only %d write sites of merge: the steps are invoked in a form it does not follow' % len(sites))
 
 
 def probe_order(ctx, rule):
